@@ -99,6 +99,25 @@ func analyseDoc(bt built) *treeInfo {
 	ti := &treeInfo{byOwner: map[string][]boxRef{}, letters: map[rune]int{}, letterAt: map[rune]string{}, counters: map[string]int64{},
 		replaced: map[*html.Node]bo.Box{}, inFnArea: map[string]bool{}}
 	inArea := false
+	// the elements that have a running box (position:running())
+	runEl := map[*html.Node]bool{}
+	var pre func(b bo.Box)
+	pre = func(b bo.Box) {
+		f := b.Box()
+		if f.IsRunning() && f.Element != nil && f.PseudoType == "" {
+			runEl[f.Element] = true
+		}
+		if t, ok := b.(bo.TableBoxITF); ok {
+			for _, g := range t.Table().ColumnGroups {
+				pre(g)
+			}
+		}
+		for _, c := range f.Children {
+			pre(c)
+		}
+	}
+	pre(root)
+	unfinished := 0 // > 0 inside a zone reported as I1-running-content-unfinished
 	var walk func(b, parent bo.Box, depth int, raw bool)
 	walk = func(b, parent bo.Box, depth int, raw bool) {
 		f := b.Box()
@@ -139,7 +158,23 @@ func analyseDoc(bt built) *treeInfo {
 				// the structure clauses apply to it, reported under one clause
 				ti.counters["running:boxes-outside-block-and-inline-contexts"]++
 				n0 := len(ti.finds)
-				defer func() { ti.collapseRunning(n0, b, parent) }()
+				unfinished++
+				defer func() { unfinished--; ti.collapseRunning(n0, b, parent, "") }()
+			}
+		} else if !raw && unfinished == 0 && len(runEl) > 0 && f.Element != nil {
+			// a box made for a descendant of a running element that is not inside the running box:
+			// taken out of it, into the flow, by a pass that did not leave the running box alone
+			for a := f.Element.Parent; a != nil; a = a.Parent {
+				if runEl[a] {
+					ti.counters["running:boxes-taken-out-of-a-running-box"]++
+					n0 := len(ti.finds)
+					unfinished++
+					defer func() {
+						unfinished--
+						ti.collapseRunning(n0, b, parent, "a descendant of a running element, is outside the running box, in the flow")
+					}()
+					break
+				}
 			}
 		}
 		if raw {
@@ -210,7 +245,9 @@ func analyseDoc(bt built) *treeInfo {
 			}
 		case is(bo.TableT, b):
 			ti.counters["I3:tables"]++
-			ti.tables = append(ti.tables, boxRef{b, parent})
+			if unfinished == 0 {
+				ti.tables = append(ti.tables, boxRef{b, parent})
+			}
 			if parent == nil || !parent.Box().IsTableWrapper {
 				ti.fail("I3-table-without-wrapper", "parent "+describe(parent), b, parent)
 			}
@@ -243,7 +280,7 @@ func analyseDoc(bt built) *treeInfo {
 				if running != nil {
 					// a running column (group) stays in the table: never taken out, never completed
 					ti.counters["running:boxes-outside-block-and-inline-contexts"]++
-					ti.collapseRunning(n0, running, b)
+					ti.collapseRunning(n0, running, b, "")
 				}
 			}
 		case is(bo.TableRowGroupT, b):
@@ -377,14 +414,20 @@ func deferredContext(parent bo.Box) bool {
 }
 
 // collapseRunning replaces the findings made inside a running box that layout will not take out
-// of the flow (finds[n0:]) by one finding of the clause I1-running-content-unfinished.
-func (ti *treeInfo) collapseRunning(n0 int, b, parent bo.Box) {
+// of the flow, or inside a box taken out of a running box (finds[n0:]), by one finding of the
+// clause I1-running-content-unfinished.
+func (ti *treeInfo) collapseRunning(n0 int, b, parent bo.Box, hoisted string) {
 	if len(ti.finds) <= n0 {
 		return
 	}
 	first := ti.finds[n0]
 	more := len(ti.finds) - n0 - 1
 	ti.finds = ti.finds[:n0]
+	if hoisted != "" {
+		ti.fail("I1-running-content-unfinished", fmt.Sprintf("%s (child of %s), %s, with its content as built (no anonymous-box pass has completed it): %s: %s (+%d more)",
+			describe(b), describe(parent), hoisted, first.clause, first.detail, more), b)
+		return
+	}
 	ti.fail("I1-running-content-unfinished", fmt.Sprintf("the running box %s is a child of %s: table, flex and grid layout handle it as an in-flow child, and no anonymous-box pass has completed its content: %s: %s (+%d more)",
 		describe(b), describe(parent), first.clause, first.detail, more), b)
 }
